@@ -2142,6 +2142,10 @@ func (ctx Ctx) funcDecl(d *ast.FuncDecl) coq.FuncDecl {
 }
 
 func (ctx Ctx) constSpec(spec *ast.ValueSpec) coq.ConstDecl {
+	if len(spec.Names) > 1 {
+		// only the first name would be defined
+		ctx.unsupported(spec, "several names in one const or var specification (declare them separately)")
+	}
 	ident := spec.Names[0]
 	ctx.checkCoqName(ident, ident.Name)
 	cd := coq.ConstDecl{
